@@ -14,7 +14,7 @@ LEVEL = 'model_checking'
 CHUNK = 8
 RULE = ('place of the process start (37 places: run/$/% in setup, before-assert, assert, cleanup; -stdout-from in file / stdin = / env / equals; run text transformer, '
         'run text matcher, run file matcher; the action to check under the command-line, shell, file-interpreter and source-interpreter forms) x duration of the '
-        'child relative to the timeout in force {T-1, T, T+1, T-1 with 200 kB of output on stdout and 100 kB on stderr (a pipe nobody reads would block it), never ends, never ends and ignores SIGTERM, never ends and a second never-ending process in [cleanup]} x timeout history {default only, set before (T=1, 5), set after, none before, T then none, '
+        'child relative to the timeout in force {T-1, T, T+1, T-1 with 200 kB of output on stdout and 100 kB on stderr (a pipe nobody reads would block it), never ends, never ends and ignores SIGTERM, never ends and a second never-ending process in [cleanup]} x timeout history {default only, set before (T=0, 1, 5), set after, none before, T then none, '
         'none then T, set in an earlier phase, T then T2; for the 5 places whose process starts later than the instruction naming it: set between the two (4 histories)}; lifecycle states (running, timed-out, cleanup, ended) x place are the graph; plus 7 places under --act; plus a real-process slice '
         '(8 places x {plain sleeper, SIGTERM-ignoring sleeper}); non-trivial = the child outlives the timeout or there is no timeout')
 ASSUMPTIONS = [
@@ -77,6 +77,7 @@ HISTORIES = {
     'default': ([], 60),
     'set-1-before': ([('setup', 1)], 1),
     'set-5-before': ([('setup', 5)], 5),
+    'set-0-before': ([('setup', 0)], 0),          # the smallest legal value is a limit too
     'set-1-after': ([('after', 1)], 60),
     'none-before': ([('setup', None)], None),
     '5-then-none': ([('setup', 5), ('setup', None)], None),
@@ -216,7 +217,7 @@ def run(case) -> Result:
     elif T is None:
         d = {'T-1': 59, 'T': 60, 'T+1': 100000, 'T-1-big-output': 59}[dur]
     else:
-        d = {'T-1': T - 1, 'T': T, 'T+1': T + 1, 'T-1-big-output': T - 1}[dur]
+        d = {'T-1': max(0, T - 1), 'T': T, 'T+1': T + 1, 'T-1-big-output': max(0, T - 1)}[dur]
     seam.script['slow'] = {'dur': d, 'out': 'slow output\n', 'ignore_term': dur == 'inf-ignore-term'}
     if dur == 'T-1-big-output':
         # a child that ends in time but writes a lot on both streams: wherever its output goes, it must be able to finish
